@@ -8,8 +8,11 @@ def run(rep, tier, seed):
                 "every subset of files defining block b1 x 4 placements of b2, yield placed in the root body / at a definition "
                 "site / in a range / in a block / in content; every ordered selection of named arguments for a block with a "
                 "no-default, a literal-default and a parameter-referencing default, declared in an import or used from a layout; "
-                "content supplied by caller / default / absent, nested content; all non-trivial; distinct by template set")
+                "content supplied by caller / default / absent / empty, nested content, no content left over from an earlier failed execution; all non-trivial; distinct by template set")
     gen_and_replay(rep, wd, exe, "Gen_C08.tla", "C08", {"Families": '{"tree", "params", "shared", "alias", "content"}'}, {}, timeout=3000)
+    # {{yield content}} where no content was supplied renders nothing - also in an execution that follows one which
+    # failed while content was installed (histories of Gen_C10 around the content-carrying wrappers)
+    gen_and_replay(rep, wd, exe, "Gen_C10.tla", "C08_content_after_failure", {"Depth": 1}, {"Kinds": "ContentKinds"}, trace_execs=0)
     rep.exhaustive = True
 
 def replay(path):
